@@ -153,7 +153,7 @@ DEGENERATE_RHO = {
 }
 
 
-def check_baseline(obs, pred, p, col, sub):
+def check_baseline(obs, pred, p, col, sub, dtype=None):
     """Runs BaselineMetrics on the frame and judges every exposed statistic.  Returns (bm, flat, info) or (None, None, info)."""
     from opendsm.common.metrics import BaselineMetrics
 
@@ -161,7 +161,7 @@ def check_baseline(obs, pred, p, col, sub):
     nfin = len(o)
     info = {"n": nfin}
     try:
-        bm = BaselineMetrics(df=_frame(obs, pred), num_model_params=p)
+        bm = BaselineMetrics(df=_frame(obs, pred) if dtype is None else _frame(obs, pred).astype(dtype), num_model_params=p)
         flat = {k: _plain(v) for k, v in _flatten(bm.model_dump()).items()}
     except Exception as exc:  # noqa
         info["raised"] = type(exc).__name__
@@ -280,6 +280,8 @@ def reporting_frames():
     idx = pd.DatetimeIndex(["2021-01-10", "2021-01-20", "2021-02-10", "2021-02-20", "2021-03-05", "2021-03-15", "2021-03-25"])
     out["q1_dirty"] = (pd.DataFrame({"observed": [3.0, nan, 4.0, 2.0, 5.0, 1.0, 2.0], "predicted": [2.0, 1.0, 3.0, inf, 4.0, 1.5, nan]}, index=idx), 3)
     out["zero_savings"] = (_frame([1, 3], [3, 1], "2021-06-01"), 1)
+    # whole-number readings (exact in every numeric dtype); usage went UP, so the savings are negative
+    out["whole_up"] = (_frame([130, 141, 152, 127, 160, 155], [120, 131, 150, 129, 140, 150], "2021-02-01"), 1)
     t = np.arange(300.0)
     o = 10 + 3 * np.sin(2 * np.pi * t / 7) + 0.01 * t
     out["ten_months"] = (_frame(o, o * 1.1, "2021-01-01"), 10)
@@ -301,6 +303,8 @@ def check_reporting(bm, flat, col, sub, stats, frames, conf_tails):
     for fname in frames:
         rdf, months = _RF[fname]
         ro, rp = rdf["observed"].tolist(), rdf["predicted"].tolist()
+        if sub.get("dtype"):
+            rdf = rdf.astype(sub["dtype"])
         for freq in FREQS:
             for conf, tails in conf_tails:
                 rsub = dict(sub, reporting=fname, freq=freq, conf=conf, tails=tails)
@@ -395,10 +399,10 @@ def check_caltrack(obs, pred, p, col, sub, stats):
 
 
 # ----------------------------------------------------------------------------------------- one pair
-def run_pair(obs, pred, p, col, stats, sub, reporting=(), conf_tails=CONF_TAILS[:1], caltrack=False, judge=True):
+def run_pair(obs, pred, p, col, stats, sub, reporting=(), conf_tails=CONF_TAILS[:1], caltrack=False, judge=True, dtype=None):
     """Everything done on one (observed, predicted, p).  Returns a compact behaviour string."""
     jcol = col if judge else Collector()
-    bm, flat, info = check_baseline(obs, pred, p, jcol, sub)
+    bm, flat, info = check_baseline(obs, pred, p, jcol, sub, dtype=dtype)
     stats["baseline_dumps"] = stats.get("baseline_dumps", 0) + 1
     if bm is None:
         return f"raise:{info.get('raised')}:n{info['n']}"
@@ -706,6 +710,21 @@ def run_case(case):
                                 conf_tails=CONF_TAILS, caltrack=True))
         stats.update(col.counts)
         return {"behaviour": [b[:240] + "#" + hashlib.sha256(b.encode()).hexdigest()[:12] for b in beh], "violations": col.viol, "stats": stats}
+    if kind == "dtype":
+        # whole-number series handed over in another numeric dtype: every statistic is the one of the same numbers as float64
+        L = case["length"]
+        t = np.arange(L)
+        obs = (100 + (7 * t) % 23).astype("float64")
+        pred = obs + ((5 * t) % 9 - 4)
+        col = Collector(cap=50)
+        beh = []
+        for p in PARAMS:
+            sub = {"kind": "dtype", "dtype": case["dtype"], "length": L, "p": p}
+            beh.append(run_pair(obs.tolist(), pred.tolist(), p, col, stats, sub, reporting=("whole_up",), conf_tails=CONF_TAILS[:1], dtype=case["dtype"]))
+        for v in col.viol:
+            v["key"] = dict(v["key"], dtype=case["dtype"])
+        stats.update(col.counts)
+        return {"behaviour": [b[:200] for b in beh], "violations": col.viol, "stats": stats}
     if kind == "fit":
         col = Collector(cap=50)
         res = _fit_hourly(case, col, stats) if case["family"] == "hourly" else _fit_daily(case, col, stats)
@@ -740,6 +759,11 @@ def struct_cases(tier):
     ]
 
 
+def dtype_cases(tier):
+    return [{"kind": "dtype", "dtype": dt, "length": L} for dt in ("float32", "int64", "int32", "int16", "uint32", "uint16", "uint8")
+            for L in ((24, 60) if tier == "quick" else (24, 25, 60, 400))]
+
+
 def fit_cases(tier):
     out = []
     for cvt, pnt in itertools.product(["lo", "hi"], repeat=2):
@@ -767,13 +791,16 @@ def run(tier, seed):
                                    small_cases(tier), seed=seed, chunk=1))
         exs.append(explore.explore(pool, "structured series 24-400 x contamination x p (+ReportingMetrics, CalTRACK, gate)", MOD, "run_case",
                                    struct_cases(tier), seed=seed, chunk=4))
+        exs.append(explore.explore(pool, "whole-number series in other numeric dtypes (float32, signed / unsigned integers)", MOD, "run_case",
+                                   dtype_cases(tier), seed=seed, chunk=1))
     cov = explore.merge_coverage(
         exs,
         rule="small scope: one case = one observed tuple; it runs every predicted tuple over the same alphabet x p in {1,2,5} "
         "(BaselineMetrics.model_dump vs the Fraction reference, reported identities, the hourly gate at 2x2 threshold placements, "
         "ReportingMetrics over 3 frames x 3 frequencies where stated); behaviour = multiset of (finite pairs, n' class, class of each "
         "key ratio, gate outcomes, reporting outcomes); non-trivial = at least one pair with >= 2 finite rows.  Structured: one case = "
-        "(observed kind, predicted kind, length, contamination) run for each p.  Fits: one case = two fits + one predict",
+        "(observed kind, predicted kind, length, contamination) run for each p.  Dtypes: one case = a whole-number series handed to "
+        "BaselineMetrics / ReportingMetrics in float32, int64/32/16 or uint32/16/8 columns, judged by the same reference.  Fits: one case = two fits + one predict",
     )
     stats = {}
     for e in exs:
